@@ -30,10 +30,11 @@ class StepCase:
 
     def impl_text(self, order, ib=None):
         ib = self.Ib if ib is None else ib
-        return "step %s %d %d %d %s %s %s %s %s %s %s %s %s %s %s %s %d %s\n" % (
+        return "step %s %d %d %d %s %s %s %s %s %s %s %s %s %s %s %s %d %s %s %s\n" % (
             self.cid, self.n, self.it, self.nmax, " ".join(order), self.ztoks(),
             fhex(ib), fhex(self.E0), fhex(self.sE), fhex(self.dt), fhex(self.f_rev), fhex(self.f_RF),
             fhex(self.bl), fhex(self.pqsize), fhex(self.angle), fhex(self.e1), self.deriv,
+            fhex(getattr(self, "shx", 0.0)), fhex(getattr(self, "shy", 0.0)),
             " ".join(fhex(v) for v in self.data))
 
     def replay(self):
@@ -42,6 +43,7 @@ class StepCase:
                  Ib=fhex(self.Ib), E0=fhex(self.E0), sE=fhex(self.sE), dt=fhex(self.dt), f_rev=fhex(self.f_rev),
                  f_RF=fhex(self.f_RF), bl=fhex(self.bl), pqsize=fhex(self.pqsize), angle=fhex(self.angle),
                  steps=self.steps, e1=fhex(self.e1), deriv=self.deriv, target_F=self.target_F,
+                 shift_x_cells=getattr(self, "shx", 0.0), shift_y_cells=getattr(self, "shy", 0.0),
                  data=[fhex(v) for v in self.data])
         return d
 
@@ -58,6 +60,7 @@ def case_from_replay(rp):
     return StepCase(rp["id"], n=rp["n"], it=rp["it"], nmax=rp["nmax"], z=z, Ib=fl("Ib"), E0=fl("E0"), sE=fl("sE"),
                     dt=fl("dt"), f_rev=fl("f_rev"), f_RF=fl("f_RF"), bl=fl("bl"), pqsize=fl("pqsize"),
                     angle=fl("angle"), steps=rp["steps"], e1=fl("e1"), deriv=rp["deriv"], target_F=rp["target_F"],
+                    shx=float(rp.get("shift_x_cells", 0.0)), shy=float(rp.get("shift_y_cells", 0.0)),
                     data=[float.fromhex(v) for v in rp["data"]])
 
 
@@ -109,7 +112,17 @@ def gen_case(rng, cid, ztype):
             tot += val
     data = [f32(v / (tot * dq * dq)) for v in data]
     target_F = math.exp(rng.uniform(math.log(0.1), math.log(1.5)))
-    return StepCase(cid, n=n, it=it, nmax=nmax, z=z, Ib=1e-3, E0=E0, sE=sE, dt=dt, f_rev=f_rev, f_RF=f_RF, bl=bl,
+    # grid shifts as --PhaseSpaceShiftX/Y (in cells; main.cpp: qcenter = -shift*pqsize/(n-1)): the zero bins of the two
+    # axes differ in 40 % of the cases (the RF force is centred on the zero bin of the POSITION axis)
+    shx = shy = 0.0
+    c = rng.random()
+    if c < 0.25:
+        shx, shy = rng.choice([-2.0, -1.0, 1.0, 1.5, 2.0, 0.5]), 0.0
+    elif c < 0.40:
+        shx, shy = rng.choice([-1.5, 1.0, 2.0]), rng.choice([-1.0, 0.5, 3.0])
+    elif c < 0.50:
+        shx = shy = rng.choice([-1.0, 1.0, 2.0])
+    return StepCase(cid, shx=shx, shy=shy, n=n, it=it, nmax=nmax, z=z, Ib=1e-3, E0=E0, sE=sE, dt=dt, f_rev=f_rev, f_RF=f_RF, bl=bl,
                     pqsize=pqsize, angle=angle, steps=steps, e1=e1, deriv=deriv, target_F=target_F, data=data)
 
 
